@@ -626,7 +626,7 @@ func (s *session) verifySelect(msg *Message, checkTooHigh bool, checkTooLow bool
 		return reject
 	}
 
-	switch s.stateMachine.State.(type) {
+	switch unwrapPendingTimeout(s.stateMachine.State).(type) {
 	case resendState:
 		//Don't check staleness of a replay
 	default:
